@@ -4,7 +4,7 @@
    there is no transaction id and these statements do not apply).  `cfg` (queue capacity, timer
    resolution) and the initial parameters are arbitrary; `es` ranges over ALL event lists. *)
 From Coq Require Import NArith List.
-From Rodbus Require Import Model.Retry Spec.Lifecycle Spec.ClientSpec Gen.SessionErrors Model.ClientTask Proofs.ClientBase Proofs.C11Proofs Proofs.C10Proofs Proofs.C11Alt.
+From Rodbus Require Import Model.Retry Spec.Lifecycle Spec.ClientSpec Gen.SessionErrors Model.ClientTask Proofs.ClientBase Proofs.C11Proofs Proofs.C10Proofs Proofs.C11Alt Proofs.C11Rtu.
 Import ListNotations.
 Local Open Scope N_scope.
 
@@ -36,6 +36,14 @@ Theorem C11_alternates : forall cfg hn mt rmin rmax es,
   scan None (snd (run cfg (init hn mt rmin rmax) es)) <> None.
 Proof. exact alternates. Qed.
 Print Assumptions C11_alternates.
+
+(* what is on the wire is what was stamped: in ANY run every written request (OWire tx id) was given
+   exactly that transaction id by tx_id.next() (OStamp tx id) - immediately, or when its slow write
+   began - so C11_txid / C11_system_encode speak about the wire *)
+Theorem C11_wire_is_stamped : forall cfg hn mt rmin rmax es tx id,
+  In (OWire tx id) (snd (run cfg (init hn mt rmin rmax) es)) -> In (OStamp tx id) (snd (run cfg (init hn mt rmin rmax) es)).
+Proof. exact wire_is_stamped. Qed.
+Print Assumptions C11_wire_is_stamped.
 
 (* requests are transmitted in submission order: the ids on the wire are a subsequence (order
    preserved) of the ids in the order of the Submit events *)
@@ -88,6 +96,44 @@ Theorem C11_no_crosstalk : forall cfg s e id res, In (OComplete id res) (snd (st
     ((e = EvFrame tx k /\ partial s = None) \/ (e = EvTail /\ partial s = Some (tx, k))).
 Proof. exact no_crosstalk. Qed.
 Print Assumptions C11_no_crosstalk.
+
+(* --- serial (RTU) framing: no transaction id ---
+   The statements above are about TCP / TLS, as the property text says ("stamps each TCP/TLS
+   request with a 16-bit transaction id").  On a serial line frames carry no id: `rtu_step` is the
+   same task with frame.header.tx_id = None.  What the code does there, as theorems about the model:
+   the FIRST frame delivered while a request is outstanding decides it (whatever it is a reply to) ... *)
+Theorem C11_rtu_first_frame_decides : forall cfg s r t d tx k, ph s = PInFlight r t d -> partial s = None ->
+  exists o, snd (rtu_step cfg s (EvFrame tx k)) = OComplete (rq_id r) (respond k) :: o /\ respond k <> RErr ReResponseTimeout.
+Proof. exact rtu_first_frame_decides. Qed.
+Print Assumptions C11_rtu_first_frame_decides.
+
+(* ... also a frame whose first part arrived earlier, e.g. while the previous (timed-out) request was
+   outstanding: it completes the request that is outstanding when its last byte arrives ... *)
+Theorem C11_rtu_tail_decides : forall cfg s r t d tx k, ph s = PInFlight r t d -> partial s = Some (tx, k) ->
+  exists o, snd (rtu_step cfg s EvTail) = OComplete (rq_id r) (respond k) :: o.
+Proof. exact rtu_tail_decides. Qed.
+Print Assumptions C11_rtu_tail_decides.
+
+(* ... frames arriving while nothing is outstanding are dropped, and every other event is handled
+   exactly as on TCP (so deadline, counter, exactly-once and life-cycle theorems carry over) *)
+Theorem C11_rtu_idle_drop : forall cfg s tx k, ph s = PIdle -> rtu_step cfg s (EvFrame tx k) = (s, []).
+Proof. exact rtu_idle_drop. Qed.
+Print Assumptions C11_rtu_idle_drop.
+
+Theorem C11_rtu_other_events : forall cfg s e, (forall tx k, e <> EvFrame tx k) -> e <> EvTail -> rtu_step cfg s e = step cfg s e.
+Proof. exact rtu_other. Qed.
+Print Assumptions C11_rtu_other_events.
+
+(* the consequence on a serial line: the late reply to a timed-out request is taken as the reply to
+   the NEXT request (request 7 times out, its reply arrives when request 8 is outstanding) *)
+Example C11_rtu_late_reply_goes_to_the_next_request :
+  let cfg := {| cfg_cap := 4; cfg_res := 1 |} in
+  let rq i := CReq {| rq_id := i; rq_kind := KRead; rq_timeout := 100 |} in
+  let s := fst (run cfg (init 1 None 5 9)
+        [EvSubmit CEnable SFuture; EvRecv; EvConnect true; EvSubmit (rq 7%nat) SFuture; EvSubmit (rq 8%nat) SFuture; EvRecv;
+         EvTick 100; EvTimer; EvRecv]) in
+  snd (rtu_step cfg s (EvFrame 0 RpGenuine)) = [OComplete 8%nat ROk].
+Proof. vm_compute. reflexivity. Qed.
 
 (* non-vacuity: a run that crosses a mismatching (stale) frame and then takes the genuine one *)
 Example C11_nonvacuous :
